@@ -297,20 +297,19 @@ def correspond(ctx, gen_ok):
             if A is not None:
                 cases.append((f'(CSum {kt} {wterm} {clist([S.coq_basis(b.tables) for b in us])} {clist([S.coq_basis(b.tables) for b in vs])})',
                               f'(ODense (Some {_zss(A.toarray())}))', ('sum', len(us) * len(vs) >= 2, info)))
-        # dot (square)
+        # dot: rectangular data (NV x NU), x has one entry per column (trial DOF), the result one per row
         if c % 3 == 0:
-            vbs = stub(NU, Nv, nt, nq, dx)
-            cs = _run(ctx, 'stub:elemental', 'Form.elemental on stub bases', info, lambda: form.elemental(ub, vbs, c=wc))
             x = [rng.randint(-3, 3) for _ in range(NU)]
-            D = sorted(rng.sample(range(NU), rng.randint(0, 2)))
-            z = _run(ctx, 'stub:dot', 'COOData.dot', info, lambda: cs.dot(np.array(x, dtype=float), D=np.array(D, dtype=np.int64) if D else None))
+            D = sorted(rng.sample(range(min(NU, NV)), rng.randint(0, 2)))
+            z = _run(ctx, 'stub:dot', 'COOData.dot on rectangular data', dict(info, x=x, D=D),
+                     lambda: coo.dot(np.array(x, dtype=float), D=np.array(D, dtype=np.int64) if D else None))
             if z is not None:
-                cases.append((f'(CDot {kt} {wterm} {ut} {S.coq_basis(vbs.tables)} {clist([cz(v) for v in x])} {cnats(D)})',
-                              f'(OData (Some {clist([cz(v) for v in S.exact_ints(z)])}))', ('dot', True, info)))
-                ref = cs.tocsr() @ np.array(x, dtype=float)
+                cases.append((f'(CDot {kt} {wterm} {ut} {vt} {clist([cz(v) for v in x])} {cnats(D)})',
+                              f'(OData (Some {clist([cz(v) for v in S.exact_ints(z)])}))', ('dot', NU != NV, info)))
+                ref = coo.tocsr() @ np.array(x, dtype=float)
                 ref[D] = np.array(x, dtype=float)[D]
-                if not np.array_equal(ref, z):
-                    ctx.fail('stub:dot', 'COOData.dot differs from the product with the assembled matrix',
+                if np.shape(z) != ref.shape or not np.array_equal(ref, z):
+                    ctx.fail('stub:dot', 'COOData.dot differs from the product with the assembled (rectangular) matrix',
                              dict(info, x=x, D=D, got=np.asarray(z).tolist(), expected=ref.tolist()))
     # ElementVector decoding observed on real elements
     tri, tet, quad = skfem.MeshTri(), skfem.MeshTet(), skfem.MeshQuad()
